@@ -11,8 +11,8 @@ SHARDS = {"quick": 8, "thorough": 16}
 WATCHDOG = {"quick": 1800, "thorough": 10800}
 CASES = {"quick": 120, "thorough": 1500}
 FLOORS = {
-    "quick": {"distinct_nontrivial": 200, "score_positions_checked": 20000, "runs_checked": 800,
-              "reversal_pairs": 250, "cases[bandwidth=1]": 40, "runs_below_min_detection_interval": 30,
+    "quick": {"distinct_nontrivial": 200, "score_positions_checked": 15000, "runs_checked": 800,
+              "reversal_pairs": 250, "cases[bandwidth=1]": 30, "runs_below_min_detection_interval": 30,
               "cases[n==2*bandwidth]": 10},
     "thorough": {"distinct_nontrivial": 4000, "score_positions_checked": 500000},
 }
